@@ -3,11 +3,47 @@
 package client
 
 import (
+	"encoding/binary"
 	"errors"
 	"io"
 	"net"
 	"time"
+
+	"github.com/glowlabs-org/gca-backend/glow"
 )
+
+// Model of encoding/binary.Read for the operand types the client decodes
+// (the library takes its reflection path for named array types). Symbolic
+// execution only; the native replay runs the library.
+func verifStub_encoding_binary_Read(r io.Reader, order binary.ByteOrder, data any) error {
+	switch d := data.(type) {
+	case *glow.PublicKey:
+		_, err := io.ReadFull(r, d[:])
+		return err
+	case *uint16:
+		var b [2]byte
+		if _, err := io.ReadFull(r, b[:]); err != nil {
+			return err
+		}
+		*d = order.Uint16(b[:])
+		return nil
+	case *uint32:
+		var b [4]byte
+		if _, err := io.ReadFull(r, b[:]); err != nil {
+			return err
+		}
+		*d = order.Uint32(b[:])
+		return nil
+	case *uint64:
+		var b [8]byte
+		if _, err := io.ReadFull(r, b[:]); err != nil {
+			return err
+		}
+		*d = order.Uint64(b[:])
+		return nil
+	}
+	panic("verif: binary.Read operand type not modelled")
+}
 
 // Ghost network for the client: net.Dial is redirected (symbolically) to
 // verifStub_net_Dial, which hands out a scripted connection. Natively the same
